@@ -40,6 +40,17 @@ CHECKS = {
         note=("A-TYPING (how typing objects look to the code) is an assumed contract on the typing module, validated on "
               "every run against a generated pool of real annotations; values are not mutated during the check; replay "
               "search is a bounded differential run against an independent implementation of conformance.")),
+    "C20": dict(
+        category="proof", design_ref="DESIGN.md section 8 (C20)",
+        text=("_modules_copyable.__new__/__enter__/__exit__ and protect_via_deepcopy are symbolically executed from the current "
+              "source against the guard invariant (refcount >= 0; dispatch table equals the table before first use off ModuleType; "
+              "patched => entry present, not originally there, refcount > 0; refcount = 0 => table restored) on normal and "
+              "exceptional exits of the copy, nested copies by induction through the contract of protect_via_deepcopy itself; "
+              "the thread clause follows by the monitor rule whose syntactic obligations (every access under `with self.lock`, "
+              "singleton and lock created once under a class-level lock) are checked on the AST on every run."),
+        note=("Assumed: copy.deepcopy (A-COPY), threading.RLock (A-RLOCK), no foreign writer of dispatch_table[ModuleType] during "
+              "a copy, asynchronous exceptions not modelled; no schedule is enumerated - the thread stress run is a bounded "
+              "replay aid only.")),
 }
 
 NA = {
